@@ -185,6 +185,14 @@ def run_symbolic(desc, spec, timeout_s, npx, via_plot=False):
         built.model.reset_cache()
         ref = L.Ref(desc, start, dt, L.SymLeaves(), exp=npx.exp)
         out = []
+        if via_plot == "edit":
+            # the model is evaluated once, a constant is then given a new value through the DSL, and everything is
+            # evaluated again: the second trajectory must be the Euler solution for the NEW value
+            built.els["k1"].equation = L.SymLeaves().dsl("k1")
+            for nm in names:
+                built.els[nm](ts[-1])
+            built.els["k1"].equation = L.SymLeaves().dsl("k1b")
+            ref = L.Ref(desc, start, dt, Renamed(L.SymLeaves(), "k1", "k1b"), exp=npx.exp)
         if via_plot == "run":
             try:
                 res = scenario_frame(built.model, names, spec)
@@ -252,6 +260,19 @@ def run_symbolic(desc, spec, timeout_s, npx, via_plot=False):
     return "holds", len(paths)
 
 
+class Renamed(object):
+    """leaves in which one literal has been given a new name (the value an edit assigned)"""
+
+    def __init__(self, inner, old, new):
+        self.inner, self.old, self.new = inner, old, new
+
+    def dsl(self, name):
+        return self.inner.dsl(self.new if name == self.old else name)
+
+    def val(self, name):
+        return self.inner.val(self.new if name == self.old else name)
+
+
 BUILD_SPEC = (1.0, 3.0, 1.0)            # run specs the model object is built with before the scenario overrides them
 
 
@@ -312,6 +333,14 @@ def run_concrete(desc, spec, env, via_plot=False):
     else:
         built = L.build(desc, start, ts[-1], dt, leaves)
     ref = L.Ref(desc, start, dt, leaves, exp=math.exp)
+    if via_plot == "edit":
+        for nm in observed(desc):
+            built.els[nm](ts[-1])
+        env2 = dict(env)
+        env2.setdefault("k1b", env.get("k1", 1.0) + 2.5)
+        leaves2 = L.FloatLeaves(env2)
+        built.els["k1"].equation = leaves2.dsl("k1b")
+        ref = L.Ref(desc, start, dt, Renamed(leaves2, "k1", "k1b"), exp=math.exp)
     for k, t in enumerate(ts):
         for nm in observed(desc):
             try:
@@ -440,6 +469,12 @@ def run(tier):
                    "direct:flow:delay1", "direct:converter:dt*el", "direct:stock:start+el", "direct:converter:smooth"):
             for spec in sp:
                 tasks.append(("run:" + tag, desc, spec, "run"))
+    # fourth observation: evaluate, change a constant through the DSL, evaluate again
+    for tag, desc in models:
+        if tag in ("struct:in[k*S]-out[k-S]", "struct:two-stocks", "struct:in[conv]", "struct:bi[k*S]", "direct:flow:el", "direct:stock:lit*el",
+                   "direct:converter:smooth", "direct:flow:delay1"):
+            for spec in sp[:2]:
+                tasks.append(("edit:" + tag, desc, spec, "edit"))
     try:
         results = harness.pmap(_task, tasks, chunksize=4)
         for (tag, desc, spec, via_plot), (r, err) in zip(tasks, results):
@@ -473,7 +508,7 @@ def run(tier):
             env = {k: float(v) for k, v in info.items() if isinstance(v, (Fraction, int, float)) and not isinstance(v, bool)}
             what = {k: v for k, v in info.items() if k.startswith("_")}
             rep.candidate(sig, {"desc": desc, "spec": list(spec), "env": env,
-                                     "via_plot": "run" if tag.startswith("run:") else tag.startswith("plot:")},
+                                     "via_plot": "run" if tag.startswith("run:") else ("edit" if tag.startswith("edit:") else tag.startswith("plot:"))},
                           "model {%s} %s: %s" % (L.show_model(desc), spec_class(spec), what))
     rep.assume("constants, initial values, literals, lookup y-values are reals (rounding of binary64 values outside the claim); time is concrete",
                "denominators != 0", "exp, round, ** with non-small exponent: uninterpreted functions; sqrt(x) = pow(x,1/2) on both sides",
